@@ -436,13 +436,27 @@ impl Catalog {
                         let mut tuple = Tuple::from_slice_unchecked(bytes)?;
                         let xmin = tuple.xmin();
 
-                        let freed = if snapshot.is_transaction_aborted(xmin) || tuple.is_deleted() {
+                        // VACUUM aborts every active transaction first, so a deleter that is
+                        // not aborted has committed. A delete that was rolled back is erased from
+                        // the row: the aborted transaction is about to be forgotten, after which
+                        // its id in xmax would read as a committed delete.
+                        let mut restored = false;
+                        let deleted = match tuple.xmax() {
+                            Some(xmax) if snapshot.is_transaction_aborted(xmax) => {
+                                tuple.undelete()?;
+                                restored = true;
+                                false
+                            }
+                            Some(_) => true,
+                            None => false,
+                        };
+                        let freed = if snapshot.is_transaction_aborted(xmin) || deleted {
                             let freed = tuple.full_data().len();
                             tuples_to_remove.push(tuple);
                             freed
                         } else {
                             let freed = tuple.vaccum_with(oldest_active_xid, schema)?;
-                            if freed > 0 {
+                            if freed > 0 || restored {
                                 tuples_to_vaccum.push(tuple);
                             };
                             freed
